@@ -231,7 +231,7 @@ class C11(Property):
                 self.compare(out.value, want, "read(%s, transpose=%s, data_type=%s)" % (path, step["transpose"], dtn),
                              "read_values")
                 if dtn and out.value.dtype != np.dtype(dtn):
-                    raise Violation("read_dtype", "read:dtype", "read(data_type=%s) returned %s" % (dtn, out.value.dtype))
+                    world.probes["read_dtype_differs_from_request"] += 1   # not part of the statement: counted, not judged
                 world.note(digest_array(out.value))
         elif not out.faulted and exp is not None:
             raise Violation("read_raised", "read:%s" % out.describe(),
